@@ -60,7 +60,8 @@ def run_family(ctx, props):
     samples = []
     mism_total = 0
     lines_total = 0
-    fixo = detect_oexec(ctx.repo)
+    # the reference machine is the property (a Twrite through a fid opened for execution is refused): it does not follow the code
+    fixo = True
     combos = [(True, False), (False, True)] if q else [(True, False), (False, False), (True, True), (False, True)]
     for i, (dotu, auth) in enumerate(combos):
         c = consts(dotu, auth, fixo)
